@@ -20,13 +20,35 @@ type C08Case struct {
 	Expr *E     `json:"expr"`
 	Typ  string `json:"typ"` // int | str | bool
 	Pos  int    `json:"pos"`
+	Kw   int    `json:"kw,omitempty"` // whitespace written after tag keywords (index into kwSpaces)
 }
+
+// whitespace admissible between a tag keyword and what follows it
+var kwSpaces = []string{" ", "\t", "\n", "  ", " \n ", "\r\n"}
 
 var c08PosNames = []string{"print", "if", "elseif", "set", "for-seq", "include-with", "filter-arg", "function-arg", "macro-arg", "array-elem", "hash-value"}
 
 // c08Wrap builds the observer templates around the expression text x (of type typ). The
 // model side of each position is a fixed function of the expression's value.
-func c08Wrap(pos int, x string) map[string]string {
+func c08Wrap(pos int, x string) map[string]string { return c08WrapKw(pos, x, " ") }
+
+func c08WrapKw(pos int, x string, k string) map[string]string {
+	switch pos {
+	case 1:
+		return map[string]string{"main": "{% if" + k + x + " %}T{% else %}F{% endif %}"}
+	case 2:
+		return map[string]string{"main": "{% if false %}X{% elseif" + k + x + " %}T{% else %}F{% endif %}"}
+	case 3:
+		return map[string]string{"main": "{% set" + k + "v = " + x + " %}[{{ v }}]"}
+	case 4:
+		return map[string]string{"main": "{% for" + k + "i" + k + "in" + k + "[" + x + "] %}<{{ i }}>{% endfor %}"}
+	case 5:
+		return map[string]string{"main": "{% include" + k + "'inc'" + k + "with" + k + "{'v': " + x + "} %}", "inc": "({{ v }})"}
+	}
+	return c08Wrap0(pos, x)
+}
+
+func c08Wrap0(pos int, x string) map[string]string {
 	switch pos {
 	case 0:
 		return map[string]string{"main": "{{ " + x + " }}"}
@@ -111,7 +133,7 @@ func checkC08(c C08Case) error {
 	var outs [2]string
 	for i, full := range []bool{false, true} {
 		x := PrintE(tree, PrintOpts{Full: full})
-		tm := c08Wrap(c.Pos, x)
+		tm := c08WrapKw(c.Pos, x, kwSpaces[c.Kw%len(kwSpaces)])
 		sp := NewSpies()
 		e := newEngine(tm)
 		sp.Install(e)
@@ -175,6 +197,9 @@ func c08Classify(c C08Case) (bool, []string) {
 		}
 	})
 	classes = append(classes, "pos:"+c08PosNames[c.Pos], "type:"+c.Typ)
+	if c.Kw != 0 && c.Pos >= 1 && c.Pos <= 5 {
+		classes = append(classes, "keyword-spacing-other-than-one-space")
+	}
 	nt := (nbin >= 2 && len(levels) >= 2) || mixed || c.Pos != 0
 	return nt, classes
 }
@@ -198,6 +223,9 @@ func TestC08Expr(t *testing.T) {
 			e = g.boolE(d)
 		}
 		c := C08Case{Ctx: g.ctx, Expr: e, Typ: typ, Pos: rapid.IntRange(0, len(c08PosNames)-1).Draw(rt, "pos")}
+		if rapid.IntRange(0, 2).Draw(rt, "kwspace") == 0 {
+			c.Kw = rapid.IntRange(1, len(kwSpaces)-1).Draw(rt, "kw")
+		}
 		if !c08InDomain(c) {
 			r.Excl("value outside the modelled domain in this position (e.g. empty value under default())")
 			return
